@@ -3,7 +3,7 @@
 From Coq Require Import ZArith List Bool Lia ZifyBool.
 From AwkV Require Import Base Layout LayoutInd Valid Types AtAxis Carry Ops_Getitem Typing Proofs_Typing
                          Proofs_Lists Proofs_ToList Proofs_Carry Proofs_CarryValid Proofs_AtAxis Proofs_AtAxisOps
-                         Proofs_C01 Proofs_Getitem.
+                         Proofs_C01 Proofs_Getitem Proofs_Getitem2.
 Import ListNotations.
 Open Scope Z_scope.
 Ltac Zify.zify_post_hook ::= Z.to_euclidean_division_equations.
@@ -53,6 +53,53 @@ Proof.
   - inversion H; subst. eauto.
 Qed.
 
+(* induction on types that sees through the field lists *)
+Section TyInd.
+  Variable P : ty -> Prop.
+  Hypothesis HNum : forall d, P (TNum d).
+  Hypothesis HUnk : P TUnk.
+  Hypothesis HList : forall sz str t, P t -> P (TList sz str t).
+  Hypothesis HOpt : forall t, P t -> P (TOpt t).
+  Hypothesis HRec : forall ks ts, Forall P ts -> P (TRec ks ts).
+  Hypothesis HUnion : forall ts, Forall P ts -> P (TUnion ts).
+  Fixpoint ty_ind' (t : ty) : P t :=
+    match t with
+    | TNum d => HNum d
+    | TUnk => HUnk
+    | TList sz str t' => HList sz str t' (ty_ind' t')
+    | TOpt t' => HOpt t' (ty_ind' t')
+    | TRec ks ts => HRec ks ts ((fix go (l : list ty) : Forall P l :=
+                                   match l with [] => Forall_nil P | x :: xs => Forall_cons x (ty_ind' x) (go xs) end) ts)
+    | TUnion ts => HUnion ts ((fix go (l : list ty) : Forall P l :=
+                                 match l with [] => Forall_nil P | x :: xs => Forall_cons x (ty_ind' x) (go xs) end) ts)
+    end.
+End TyInd.
+
+(* the depth queries do not see options *)
+Lemma minmax_er t : minmax (er t) = minmax t.
+Proof.
+  induction t as [d| |sz str t IH|t IH|ks ts IH|ts IH] using ty_ind'; cbn [er minmax]; auto.
+  - destruct str; [reflexivity|]. rewrite IH. reflexivity.
+  - assert (Hm : map minmax (map er ts) = map minmax ts).
+    { rewrite map_map. apply map_ext_in. intros x Hx. rewrite Forall_forall in IH. apply IH, Hx. }
+    destruct ts as [|t0 rest]; [reflexivity|]. cbn [map] in Hm |- *. inversion IH as [|? ? H0 _]; subst.
+    injection Hm as Hm0 Hm1. rewrite H0, Hm1. reflexivity.
+  - assert (Hm : map minmax (map er ts) = map minmax ts).
+    { rewrite map_map. apply map_ext_in. intros x Hx. rewrite Forall_forall in IH. apply IH, Hx. }
+    destruct ts as [|t0 rest]; [reflexivity|]. cbn [map] in Hm |- *. inversion IH as [|? ? H0 _]; subst.
+    injection Hm as Hm0 Hm1. rewrite H0, Hm1. reflexivity.
+Qed.
+Lemma minmax_er_eq T U : er T = er U -> minmax T = minmax U.
+Proof. intros H. rewrite <- (minmax_er T), H. apply minmax_er. Qed.
+Lemma minmax_so_ty t : minmax (so_ty t) = minmax t.
+Proof. induction t; cbn [so_ty minmax]; auto. Qed.
+
+Definition tdepth (t : ty) : Z := snd (minmax t).
+Lemma tdepth_list T sz t : so_ty T = TList sz None t -> minmax T = (fst (minmax t) + 1, snd (minmax t) + 1).
+Proof. intros H. rewrite <- (minmax_so_ty T), H. cbn [minmax]. destruct (minmax t); reflexivity. Qed.
+Lemma tdepth_list' T sz t : so_ty T = TList sz None t -> tdepth T = tdepth t + 1.
+Proof. intros H. unfold tdepth. rewrite (tdepth_list T sz t H). reflexivity. Qed.
+
 (* ---------------------------------------------------------------- the fragment *)
 (* 1-d numeric leaves; ListOffset / ListArray / RegularArray at any depth; IndexedArray and the option
    encodings; parameter nodes without __array__ *)
@@ -60,7 +107,9 @@ Fixpoint gfrag (c : content) : bool :=
   match c with
   | Numpy _ shape _ => match shape with [_] => true | _ => false end
   | Empty => true
-  | ListOffset _ _ c' | ListA _ _ _ c' | Regular c' _ _ => gfrag c'
+  | ListOffset _ _ c' | ListA _ _ _ c' | Regular c' _ _ | Indexed _ _ c' | IndexedOption _ _ c'
+  | ByteMasked _ _ c' | BitMasked _ _ _ _ c' | Unmasked c' => gfrag c'
+  | Par None _ c' => gfrag c'
   | _ => false
   end.
 
@@ -78,13 +127,81 @@ Proof.
     cbn [gfrag]. apply (IHc _ _ Hc).
   - apply bind_Ok in H as (j & _ & H). inversion H. reflexivity.
   - apply bind_Ok in H as (j & _ & H). inversion H. reflexivity.
-  - apply bind_Ok in H as (m' & _ & H). apply bind_Ok in H as (c'' & Hc & H). inversion H. reflexivity.
+  - apply bind_Ok in H as (m' & _ & H). apply bind_Ok in H as (c'' & Hc & H). inversion H. cbn [gfrag]. apply (IHc _ _ Hc).
   - apply bind_Ok in H as (bm & _ & H). apply bind_Ok in H as (m' & _ & H).
-    apply bind_Ok in H as (c'' & Hc & H). inversion H. reflexivity.
-  - apply bind_Ok in H as (c'' & Hc & H). inversion H. reflexivity.
+    apply bind_Ok in H as (c'' & Hc & H). inversion H. cbn [gfrag]. apply (IHc _ _ Hc).
+  - apply bind_Ok in H as (c'' & Hc & H). inversion H. cbn [gfrag]. apply (IHc _ _ Hc).
   - apply bind_Ok in H as (t' & _ & H). apply bind_Ok in H as (j & _ & H). inversion H. reflexivity.
   - destruct (forallb _ ix); [|discriminate]. apply bind_Ok in H as (cs' & _ & H). inversion H. reflexivity.
-  - apply bind_Ok in H as (c'' & Hc & H). inversion H. reflexivity.
+  - apply bind_Ok in H as (c'' & Hc & H). inversion H. cbn [gfrag]. destruct arr; [reflexivity|]. apply (IHc _ _ Hc).
+Qed.
+
+Lemma gfrag_frag1 c : gfrag c = true -> frag1 c = true.
+Proof.
+  induction c using content_ind'; cbn [gfrag frag1]; auto; try discriminate.
+  destruct arr; [discriminate|]. exact IHc.
+Qed.
+
+(* no records in this fragment *)
+Lemma gfrag_not_rec c : forall p, gfrag c = true -> is_rec (type_of_p p c) = false.
+Proof.
+  unfold is_rec. induction c using content_ind'; intros p Hf; cbn [gfrag] in Hf; try discriminate; cbn [type_of_p so_ty]; auto.
+  - destruct shape as [|n [|? ?]]; try discriminate. reflexivity.
+  - destruct arr; [discriminate|]. apply IHc, Hf.
+Qed.
+Lemma er_is_rec T U : er T = er U -> is_rec T = is_rec U.
+Proof.
+  intros H. pose proof (er_view T U H) as Hv. unfold is_rec.
+  destruct (so_ty U); try contradiction; try (rewrite Hv; reflexivity); destruct Hv as (? & -> & _); reflexivity.
+Qed.
+
+(* ---------------------------------------------------------------- wrapper nodes above a list node *)
+Fixpoint wd (c : content) : nat :=
+  match c with
+  | Indexed _ _ c' | IndexedOption _ _ c' | ByteMasked _ _ c' | BitMasked _ _ _ _ c' | Unmasked c' | Par _ _ c' => S (wd c')
+  | _ => O
+  end.
+
+Lemma carry_wd c : forall ix c', carry c ix = Ok c' -> wd c' = wd c.
+Proof.
+  induction c as [dt shape data| |w o c IHc|w s e c IHc|c size zl IHc|w ix0 c IHc|w ix0 c IHc|m vw c IHc
+                 |m vw lsb n c IHc|c IHc|w t ix0 cs IHcs|cs ks n IHcs|arr rn c IHc] using content_ind';
+    intros ix c' H; cbn [carry] in H.
+  - destruct shape as [|n dims]; [discriminate|]. apply bind_Ok in H as (rows & _ & H). inversion H. reflexivity.
+  - destruct ix; [|discriminate]. inversion H. reflexivity.
+  - apply bind_Ok in H as (s & _ & H). apply bind_Ok in H as (e & _ & H). inversion H. reflexivity.
+  - apply bind_Ok in H as (s' & _ & H). apply bind_Ok in H as (e' & _ & H). inversion H. reflexivity.
+  - apply bind_Ok in H as (nx & _ & H). apply bind_Ok in H as (c'' & Hc & H). inversion H. reflexivity.
+  - apply bind_Ok in H as (j & _ & H). inversion H. reflexivity.
+  - apply bind_Ok in H as (j & _ & H). inversion H. reflexivity.
+  - apply bind_Ok in H as (m' & _ & H). apply bind_Ok in H as (c'' & Hc & H). inversion H. cbn [wd]. rewrite (IHc _ _ Hc). reflexivity.
+  - apply bind_Ok in H as (bm & _ & H). apply bind_Ok in H as (m' & _ & H).
+    apply bind_Ok in H as (c'' & Hc & H). inversion H. cbn [wd]. rewrite (IHc _ _ Hc). reflexivity.
+  - apply bind_Ok in H as (c'' & Hc & H). inversion H. cbn [wd]. rewrite (IHc _ _ Hc). reflexivity.
+  - apply bind_Ok in H as (t' & _ & H). apply bind_Ok in H as (j & _ & H). inversion H. reflexivity.
+  - destruct (forallb _ ix); [|discriminate]. apply bind_Ok in H as (cs' & _ & H). inversion H. reflexivity.
+  - apply bind_Ok in H as (c'' & Hc & H). inversion H. cbn [wd]. rewrite (IHc _ _ Hc). reflexivity.
+Qed.
+
+(* validity bounds the number of wrappers: at most Par, one of Indexed/option, Par *)
+Lemma wd_nonoption p c : Valid p c -> optionlike c = false -> (wd c <= 1)%nat.
+Proof.
+  intros HV Ho. destruct c; cbn [wd]; try lia; try discriminate.
+  inversion HV; subst. rewrite optionlike_Par in Ho.
+  match goal with H : forall a r x, c <> Par a r x |- _ => rename H into Hnp end.
+  destruct c; cbn [wd]; try lia; try discriminate. exfalso. eapply Hnp. reflexivity.
+Qed.
+Lemma wd_nonpar p c : Valid p c -> (forall a r x, c <> Par a r x) -> (wd c <= 2)%nat.
+Proof.
+  intros HV Hnp. destruct c; cbn [wd]; try lia; inversion HV; subst;
+    try (match goal with Hv : Valid None ?c', Ho : optionlike ?c' = false |- _ => pose proof (wd_nonoption None c' Hv Ho); lia end).
+  exfalso. eapply Hnp. reflexivity.
+Qed.
+Lemma valid_wd p c : Valid p c -> (wd c <= 3)%nat.
+Proof.
+  intros HV. destruct c; try (apply Nat.le_trans with 2%nat; [eapply wd_nonpar; [exact HV|discriminate]|lia]).
+  inversion HV; subst. cbn [wd].
+  match goal with Hv : Valid arr c, Hn : forall a r x, c <> Par a r x |- _ => pose proof (wd_nonpar arr c Hv Hn) end. lia.
 Qed.
 
 (* ---------------------------------------------------------------- the refinement relation *)
@@ -133,11 +250,6 @@ Proof.
   exists bs, cc, vs0, ls, t. repeat split; try assumption. eapply gfrag_list_content; eassumption.
 Qed.
 
-Lemma unopt_somes (pk : list (list value)) : map unopt (map Some pk) = pk.
-Proof. rewrite map_map. cbn [unopt]. apply map_id. Qed.
-Lemma counts_somes (pk : list (list value)) : map (fun o => zlen (unopt o)) (map Some pk) = map zlen pk.
-Proof. rewrite map_map. reflexivity. Qed.
-
 Lemma wrap_at_err n i e : wrap_at n i = Err e -> e = EValue.
 Proof. unfold wrap_at. destruct (_ && _); [discriminate|]. intros H. inversion H. reflexivity. Qed.
 Lemma szchk_err sz i e : szchk sz i = Err e -> e = EValue.
@@ -154,17 +266,18 @@ Qed.
 Section ListNode.
   Variables (tail : list item).
   (* the induction hypothesis for the rest of the tuple, for all sufficient fuels *)
-  Variable (Nm Ns : nat).
-  Hypothesis IH : forall fm fs c T xs, (Nm <= fm)%nat -> (Ns <= fs)%nat ->
+  Variable (Nm Ns : nat) (K : Z).
+  Hypothesis IH : forall fm fs c T xs, (Nm <= fm)%nat -> (Ns <= fs)%nat -> tdepth T <= K ->
     Valid None c -> gfrag c = true -> to_list c = Ok xs -> er T = er (type_of c) ->
     R (zlen xs) (gn fm c tail None) (se_ fs T xs tail None).
 
-  Lemma list_node_IAt fm fs c T xs i : (Nm <= fm)%nat -> (Ns <= fs)%nat ->
+  Lemma list_node_IAt fm fs c T xs i : (Nm <= fm)%nat -> (Ns <= fs)%nat -> tdepth T <= K + 1 ->
     Valid None c -> gfrag c = true -> lnode c = true -> to_list c = Ok xs -> er T = er (type_of c) ->
     R (zlen xs) (gn (S fm) c (IAt i :: tail) None) (se_ (S fs) T xs (IAt i :: tail) None).
   Proof.
-    intros Hfm Hfs HV Hfr Hn Hl HT.
+    intros Hfm Hfs HK HV Hfr Hn Hl HT.
     destruct (lnode_view2 c T xs HV Hfr Hn Hl HT) as (bs & cc & vs0 & ls & t & Hb & HVc & Hfc & Hl0 & Hcut & -> & HsT & Het).
+    assert (HKt : tdepth t <= K) by (rewrite (tdepth_list' _ _ _ HsT) in HK; lia).
     rewrite (se_at_list _ _ _ (IAt i) _ _ _ _ _ eq_refl HsT (as_list_lists ls)).
     rewrite gn_list_IAt by exact Hn. rewrite sg_IAt, Hb. cbn [bind fst snd].
     destruct (szchk (rsize c) i) as [[]|e] eqn:Esz; cbn [bind]; [|apply szchk_err in Esz; subst; split; reflexivity].
@@ -178,7 +291,7 @@ Section ListNode.
     { apply (carry_valid cc vs0 ks nc HVc Hl0); [rewrite <- (to_list_len _ _ Hl0); exact Hr|exact Hnc]. }
     assert (Hfn : gfrag nc = true) by (rewrite (carry_gfrag _ _ _ Hnc); exact Hfc).
     assert (Hetn : er t = er (type_of nc)) by (rewrite (carry_type_of _ _ _ Hnc); exact Het).
-    pose proof (IH fm fs nc t xs' Hfm Hfs HVn Hfn Hlnc Hetn) as HR. cbn [present_adv].
+    pose proof (IH fm fs nc t xs' Hfm Hfs HKt HVn Hfn Hlnc Hetn) as HR. cbn [present_adv].
     assert (Hlen : zlen xs' = zlen ls).
     { rewrite (mapM_zlen _ _ _ Hxs'), (mapM_zlen _ _ _ Hks). symmetry. apply (mapM_zlen _ _ _ Hcut). }
     rewrite zlen_map.
@@ -188,12 +301,13 @@ Section ListNode.
     - destruct HR as [-> ->]. split; reflexivity.
   Qed.
 
-  Lemma list_node_IRange fm fs c T xs a b st : (Nm <= fm)%nat -> (Ns <= fs)%nat ->
+  Lemma list_node_IRange fm fs c T xs a b st : (Nm <= fm)%nat -> (Ns <= fs)%nat -> tdepth T <= K + 1 ->
     Valid None c -> gfrag c = true -> lnode c = true -> to_list c = Ok xs -> er T = er (type_of c) ->
     R (zlen xs) (gn (S fm) c (IRange a b st :: tail) None) (se_ (S fs) T xs (IRange a b st :: tail) None).
   Proof.
-    intros Hfm Hfs HV Hfr Hn Hl HT.
+    intros Hfm Hfs HK HV Hfr Hn Hl HT.
     destruct (lnode_view2 c T xs HV Hfr Hn Hl HT) as (bs & cc & vs0 & ls & t & Hb & HVc & Hfc & Hl0 & Hcut & -> & HsT & Het).
+    assert (HKt : tdepth t <= K) by (rewrite (tdepth_list' _ _ _ HsT) in HK; lia).
     rewrite (se_at_list _ _ _ (IRange a b st) _ _ _ _ _ eq_refl HsT (as_list_lists ls)).
     rewrite gn_list_IRange by exact Hn. rewrite sg_IRange, Hb. cbn [bind fst snd]. cbv zeta.
     destruct (stepof st =? 0) eqn:Es; [split; reflexivity|].
@@ -208,7 +322,7 @@ Section ListNode.
     { apply (carry_valid cc vs0 (concat pm) nc HVc Hl0); [rewrite <- (to_list_len _ _ Hl0); exact Hrange|exact Hnc]. }
     assert (Hfn : gfrag nc = true) by (rewrite (carry_gfrag _ _ _ Hnc); exact Hfc).
     assert (Hetn : er t = er (type_of nc)) by (rewrite (carry_type_of _ _ _ Hnc); exact Het).
-    pose proof (IH fm fs nc t (concat pk) Hfm Hfs HVn Hfn Hlnc Hetn) as HR.
+    pose proof (IH fm fs nc t (concat pk) Hfm Hfs HKt HVn Hfn Hlnc Hetn) as HR.
     rewrite (mapM_mapM_lens _ _ _ Hpk). rewrite zlen_map.
     destruct (gn fm nc tail None) as [c'|e]; cbn [R] in *.
     - destruct HR as (t' & ws & -> & Ht' & Hl' & Hz). cbn [bind fst snd].
@@ -222,12 +336,12 @@ Section ListNode.
   Qed.
 End ListNode.
 
-(* ---------------------------------------------------------------- the tuple induction *)
+(* ---------------------------------------------------------------- a positional item at a leaf *)
 Lemma leaf_positional fm fs c T xs head tail :
-  gfrag c = true -> lnode c = false -> er T = er (type_of c) -> positional head = true ->
+  gfrag c = true -> lnode c = false -> wd c = O -> er T = er (type_of c) -> positional head = true ->
   R (zlen xs) (gn (S fm) c (head :: tail) None) (se_ fs T xs (head :: tail) None).
 Proof.
-  intros Hfr Hn HT Hp. pose proof (er_view T _ HT) as Hv.
+  intros Hfr Hn Hw HT Hp. pose proof (er_view T _ HT) as Hv.
   destruct c; try discriminate.
   - cbn [gfrag] in Hfr. destruct shape as [|n [|? ?]]; try discriminate.
     rewrite gn_numpy1 by exact Hp. cbn [type_of type_of_p tl numpy_ty so_ty] in Hv.
@@ -236,98 +350,167 @@ Proof.
     rewrite se_at_leaf; [split; reflexivity|exact Hp|right; exact Hv].
 Qed.
 
-Theorem gn_se_basic : forall items, forallb basic_item items = true ->
-  forall fm fs c T xs, (length items < fm)%nat -> (length items < fs)%nat ->
-  Valid None c -> gfrag c = true -> to_list c = Ok xs -> er T = er (type_of c) ->
-  R (zlen xs) (gn fm c items None) (se_ fs T xs items None).
+(* ---------------------------------------------------------------- a positional item at a wrapper node *)
+Lemma R_err n m e : R n m (Err e) -> exists e', m = Err e' /\ e' = EValue /\ e = EValue.
 Proof.
-  induction items as [|head tail IHt]; intros Hb fm fs c T xs Hfm Hfs HV Hfr Hl HT.
-  - destruct fm as [|fm]; [cbn in Hfm; lia|]. rewrite gn_nil, se_nil. cbn [R]. exists T, xs. auto.
-  - cbn [forallb] in Hb. apply andb_true_iff in Hb as [Hh Hb]. specialize (IHt Hb). cbn [length] in Hfm, Hfs.
-    destruct fm as [|fm]; [lia|]. destruct fs as [|fs]; [lia|].
-    assert (IH' : forall fm0 fs0 c0 T0 xs0, (S (length tail) <= fm0)%nat -> (S (length tail) <= fs0)%nat ->
-              Valid None c0 -> gfrag c0 = true -> to_list c0 = Ok xs0 -> er T0 = er (type_of c0) ->
-              R (zlen xs0) (gn fm0 c0 tail None) (se_ fs0 T0 xs0 tail None)).
-    { intros. apply IHt; assumption || lia. }
-    destruct (lnode c) eqn:Hn.
-    + destruct head; try discriminate.
-      * eapply list_node_IAt; [exact IH'|lia|lia|assumption..].
-      * eapply list_node_IRange; [exact IH'|lia|lia|assumption..].
-    + apply leaf_positional; try assumption. destruct head; try discriminate; reflexivity.
+  destruct m as [c'|e']; cbn [R].
+  - intros (? & ? & H & _). discriminate.
+  - intros [-> H]. inversion H. eauto.
 Qed.
 
-(* ---------------------------------------------------------------- the whole operation *)
-Lemma top_wrap c vs :
-  Valid None c -> to_list c = Ok vs ->
-  Valid None (Regular c (clen c) 1) /\ to_list (Regular c (clen c) 1) = Ok [VList vs] /\
-  type_of (Regular c (clen c) 1) = TList (Some (zlen vs)) None (type_of c).
+Lemma as_list_nonone ys : forall lp,
+  mapM as_list ys = Ok lp -> (forall y, In y ys -> y <> VNone) -> exists pl, lp = map Some pl.
 Proof.
-  intros HV Hl. pose proof (to_list_len _ _ Hl) as Hn. pose proof (zlen_nonneg vs). split; [|split].
-  - constructor; [exact I|lia|lia|intros _; exact HV].
-  - rewrite to_list_Regular, Hl. cbn [bind]. rewrite <- Hn. unfold chunks.
-    destruct (zlen vs <? 0) eqn:E; [lia|]. destruct (zlen vs =? 0) eqn:E0.
-    + assert (vs = []) by (apply zlen_0_nil; lia). subst. reflexivity.
-    + rewrite Z.div_same by lia. change (Z.to_nat 1) with 1%nat. cbn [chunks_nat rmap map].
-      rewrite take_all by lia. reflexivity.
-  - cbn [type_of type_of_p strflag]. rewrite Hn. reflexivity.
+  induction ys as [|y ys IH]; intros lp H Hn; cbn [mapM] in H.
+  - inversion H. exists []. reflexivity.
+  - apply bind_Ok in H as (o & Ho & H). apply bind_Ok in H as (lp' & Hlp' & H). inversion H; subst.
+    destruct (IH lp' Hlp') as [pl ->]; [intros z Hz; apply Hn; right; exact Hz|].
+    destruct o as [l|].
+    + exists (l :: pl). reflexivity.
+    + exfalso. apply (Hn y (or_introl eq_refl)). destruct y; try discriminate. reflexivity.
 Qed.
+Lemma as_list_err ys e : mapM as_list ys = Err e -> e = EValue.
+Proof. intros H. apply mapM_Err in H as (y & _ & H). destruct y; try discriminate; inversion H; reflexivity. Qed.
+Lemma list_elem_ty_err T e : list_elem_ty T = Err e -> e = EValue.
+Proof. unfold list_elem_ty. destruct (so_ty T) as [| |? [?|] ?| | |]; try discriminate; intros H; inversion H; reflexivity. Qed.
 
-(* the element step on the wrapped array is the specification's initial call *)
-Lemma se_top fs t vs items adv :
-  (forall head tail, items = head :: tail -> positional head = true) ->
-  se_ (S fs) (TList (Some (zlen vs)) None t) [VList vs] items adv = sg (S fs) None (Some (zlen vs)) t [Some vs] items adv.
-Proof.
-  intros Hp. destruct items as [|head tail].
-  - rewrite se_nil, sg_nil. reflexivity.
-  - apply se_at_list; [eapply Hp; reflexivity|reflexivity|reflexivity].
-Qed.
+Lemma bind_Ok_id {A} (m : res A) : (do r <- m; Ok r) = m.
+Proof. destruct m; reflexivity. Qed.
 
-Definition obs_spec (s : res (ty * list value)) : res (list value) := do r <- s; Ok (snd r).
+Section Wrapper.
+  Variables (head : item) (tail : list item).
+  Hypothesis Hbasic : basic_item head = true.
+  Let Hpos : positional head = true.
+  Proof. destruct head; try discriminate; reflexivity. Qed.
 
-Lemma R_obs n m s : R n m s -> obs m = obs_spec s /\ obs m <> Err EFuel /\ obs m <> Err EOob.
-Proof.
-  destruct m as [c'|e]; cbn [R obs].
-  - intros (t' & ws & -> & _ & Hl & _). rewrite Hl. repeat split; discriminate.
-  - intros [-> ->]. repeat split; discriminate.
-Qed.
+  Variables (fm fs : nat) (c : content) (T : ty).
+  (* what is known for nodes with fewer wrappers *)
+  Hypothesis IHp : forall p xs,
+    Valid None p -> gfrag p = true -> (wd p < wd c)%nat -> to_list p = Ok xs -> er T = er (type_of p) ->
+    R (zlen xs) (gn fm p (head :: tail) None) (se_ (S fs) T xs (head :: tail) None).
 
-(* any fuel above the stated bounds gives the same, fuel-independent answer *)
-Theorem getitem_basic_fuel : forall items c vs fm fs,
-  forallb basic_item items = true -> Valid None c -> gfrag c = true -> to_list c = Ok vs ->
-  (length items < fm)%nat -> (length items < fs)%nat ->
-  obs (gn fm (Regular c (clen c) 1) items None) =
-  obs_spec (sg fs None (Some (zlen vs)) (type_of c) [Some vs] items None) /\
-  obs (gn fm (Regular c (clen c) 1) items None) <> Err EFuel /\
-  obs (gn fm (Regular c (clen c) 1) items None) <> Err EOob.
-Proof.
-  intros items c vs fm fs Hb HV Hfr Hl Hfm Hfs.
-  destruct (top_wrap c vs HV Hl) as (HVC & HlC & HtC).
-  destruct fs as [|fs]; [lia|].
-  rewrite <- (se_top fs (type_of c) vs items None).
-  - rewrite <- HtC. apply (R_obs 1). change 1 with (zlen [VList vs]).
-    apply gn_se_basic; try assumption; reflexivity.
-  - intros head tail ->. cbn [forallb] in Hb. apply andb_true_iff in Hb as [Hh _]. destruct head; try discriminate; reflexivity.
-Qed.
+  Lemma indexed_step xs :
+    Valid None c -> gfrag c = true -> (exists w ix c0, c = Indexed w ix c0) -> to_list c = Ok xs -> er T = er (type_of c) ->
+    R (zlen xs) (gn (S fm) c (head :: tail) None) (se_ (S fs) T xs (head :: tail) None).
+  Proof.
+    intros HV Hfr (w & ix & c0 & ->) Hl HT. inversion HV; subst.
+    rewrite to_list_Indexed in Hl. apply bind_Ok in Hl as (vs0 & Hl0 & Hl).
+    match goal with H : Forall _ ix |- _ => rename H into Hix end.
+    destruct (carry_spec c0 vs0 ix) as (p & Hp & Hlp & _); [assumption..|]. rewrite Hl in Hlp.
+    rewrite gn_Indexed by exact Hpos. rewrite Hp. cbn [bind].
+    apply IHp; try assumption.
+    - eapply carry_valid; eassumption.
+    - rewrite (carry_gfrag _ _ _ Hp). exact Hfr.
+    - rewrite (carry_wd _ _ _ Hp). cbn [wd]. lia.
+    - rewrite (carry_type_of _ _ _ Hp). exact HT.
+  Qed.
 
-Lemma items_fuel_enough items : (length items < items_fuel items)%nat.
-Proof. unfold items_fuel. lia. Qed.
+  Lemma par_step xs :
+    Valid None c -> gfrag c = true -> (exists a rn c0, c = Par a rn c0) -> to_list c = Ok xs -> er T = er (type_of c) ->
+    R (zlen xs) (gn (S fm) c (head :: tail) None) (se_ (S fs) T xs (head :: tail) None).
+  Proof.
+    intros HV Hfr (a & rn & c0 & ->) Hl HT. cbn [gfrag] in Hfr. destruct a; [discriminate|]. inversion HV; subst.
+    rewrite to_list_Par in Hl. apply bind_Ok in Hl as (vs0 & Hl0 & Hl). inversion Hl; subst.
+    rewrite gn_Par by exact Hpos.
+    replace (do r <- gn fm c0 (head :: tail) None;
+             match head, tail, strflag None with
+             | (IRange _ _ _ | IArray _), [], Some _ => Ok (Par None rn r)
+             | _, _, _ => Ok r
+             end) with (gn fm c0 (head :: tail) None).
+    2:{ symmetry. destruct head; try discriminate; destruct tail; apply bind_Ok_id. }
+    apply IHp; try assumption. cbn [wd]. lia.
+  Qed.
 
-Theorem getitem_refines_spec_basic : forall items c vs,
-  forallb basic_item items = true -> Valid None c -> gfrag c = true -> to_list c = Ok vs ->
-  obs (getitem_model items c) = getitem_spec items (type_of c) vs.
-Proof.
-  intros items c vs Hb HV Hfr Hl. unfold getitem_model, getitem_spec.
-  apply (getitem_basic_fuel items c vs _ _ Hb HV Hfr Hl); apply items_fuel_enough.
-Qed.
-Theorem getitem_basic_never_out_of_fuel : forall items c vs,
-  forallb basic_item items = true -> Valid None c -> gfrag c = true -> to_list c = Ok vs ->
-  obs (getitem_model items c) <> Err EFuel /\ getitem_spec items (type_of c) vs <> Err EFuel /\
-  obs (getitem_model items c) <> Err EOob.
-Proof.
-  intros items c vs Hb HV Hfr Hl.
-  pose proof (getitem_refines_spec_basic items c vs Hb HV Hfr Hl) as He.
-  destruct (getitem_basic_fuel items c vs (items_fuel items) (items_fuel items) Hb HV Hfr Hl
-              (items_fuel_enough items) (items_fuel_enough items)) as (_ & H1 & H2).
-  fold (getitem_model items c) in H1, H2. rewrite <- He. auto.
-Qed.
-Print Assumptions getitem_refines_spec_basic.
+  Lemma option_step xs :
+    Valid None c -> gfrag c = true -> is_opt c = true -> to_list c = Ok xs -> er T = er (type_of c) ->
+    R (zlen xs) (gn (S fm) c (head :: tail) None) (se_ (S fs) T xs (head :: tail) None).
+  Proof.
+    intros HV Hfr Ho Hl HT.
+    destruct (option_view c xs HV Ho Hl) as (ix & vs0 & Hoi & HVc & Hno & Hl0 & Hpick & Hty).
+    destruct (pick_present vs0 ix xs Hpick) as (ys & Hys & ->).
+    pose proof (gather_range_inv _ _ _ Hys) as Hrange. rewrite (to_list_len _ _ Hl0) in Hrange.
+    destruct (carry_spec (opt_content c) vs0 _ HVc Hl0 Hrange) as (p & Hp & Hlp & _). rewrite Hys in Hlp.
+    assert (HVp : Valid None p) by (eapply carry_valid; eassumption).
+    assert (Hfc : gfrag (opt_content c) = true) by (destruct c; try discriminate; exact Hfr).
+    assert (Hfp : gfrag p = true) by (rewrite (carry_gfrag _ _ _ Hp); exact Hfc).
+    assert (Hwp : (wd p < wd c)%nat) by (rewrite (carry_wd _ _ _ Hp); destruct c; try discriminate; cbn [wd opt_content]; lia).
+    assert (HTp : er T = er (type_of p)) by (rewrite (carry_type_of _ _ _ Hp), HT, Hty; reflexivity).
+    assert (Hnn : forall y, In y ys -> y <> VNone).
+    { apply (nonone_values p ys HVp (gfrag_frag1 _ Hfp)); [|exact Hlp].
+      destruct (carry_class _ _ _ Hp) as [-> _]. exact Hno. }
+    pose proof (IHp p ys HVp Hfp Hwp Hlp HTp) as HR.
+    rewrite gn_option by assumption. rewrite Hoi. cbn [bind fst adv_present]. rewrite Hp. cbn [bind].
+    assert (Hrec : is_rec T = false).
+    { rewrite (er_is_rec _ _ HT). apply gfrag_not_rec, Hfr. }
+    rewrite se_down in HR |- * by assumption.
+    assert (Hlen : length ys = ntrue (keys_ix ix)) by (rewrite ntrue_keys_ix; apply (mapM_length _ _ _ Hys)).
+    assert (Hz : zlen (bmerge VNone (keys_ix ix) ys) = zlen ix).
+    { unfold zlen. rewrite bmerge_length by exact Hlen. unfold keys_ix. rewrite map_length. reflexivity. }
+    destruct (list_elem_ty T) as [[sz t]|e] eqn:Elt; cbn [bind fst snd] in HR |- *.
+    2:{ apply R_err in HR as (e' & -> & -> & ->). split; reflexivity. }
+    rewrite (mapM_bmerge as_list VNone None (keys_ix ix) eq_refl ys Hlen).
+    destruct (mapM as_list ys) as [lp|e] eqn:Elp; cbn [bind rmap] in HR |- *.
+    2:{ apply R_err in HR as (e' & -> & -> & ->). split; reflexivity. }
+    destruct (as_list_nonone ys lp Elp Hnn) as [pl ->].
+    assert (Hlpl : length pl = ntrue (keys_ix ix)).
+    { rewrite <- Hlen. apply mapM_length in Elp. rewrite map_length in Elp. exact Elp. }
+    set (ls := bmerge None (keys_ix ix) (map Some pl)).
+    assert (Hsg : sg (S fs) (str_of_ty T) sz t ls (head :: tail) None =
+                  do r <- sg (S fs) (str_of_ty T) sz t (map Some pl) (head :: tail) None; Ok (fst r, reinsert ls (snd r))).
+    { rewrite <- (present_bmerge (keys_ix ix) pl Hlpl). fold ls.
+      destruct head; try discriminate; [apply sg_present_IAt|apply sg_present_IRange]. }
+    rewrite Hsg. rewrite Hz.
+    destruct (gn fm p (head :: tail) None) as [c'|e]; cbn [R bind] in *.
+    - destruct HR as (t' & ws & -> & Ht' & Hl' & Hzw). cbn [bind fst snd].
+      assert (Hlw : length ws = ntrue (keys_ix ix)) by (rewrite <- Hlen; apply zlen_eq_length; exact Hzw).
+      exists t', (reinsert ls ws). split; [reflexivity|]. split; [exact Ht'|].
+      rewrite reinsert_bmerge. unfold ls. rewrite (keys_bmerge _ _ Hlpl). split.
+      + apply to_list_outindex; assumption.
+      + unfold zlen. rewrite bmerge_length by exact Hlw. unfold keys_ix. rewrite map_length. reflexivity.
+    - destruct HR as [-> ->]. split; reflexivity.
+  Qed.
+End Wrapper.
+
+(* ---------------------------------------------------------------- the tuple induction *)
+Section Positional.
+  Variables (head : item) (tail : list item).
+  Hypothesis Hbasic : basic_item head = true.
+  Variable (Nm Ns : nat) (K : Z).
+  Hypothesis IH : forall fm fs c T xs, (Nm <= fm)%nat -> (Ns <= fs)%nat -> tdepth T <= K ->
+    Valid None c -> gfrag c = true -> to_list c = Ok xs -> er T = er (type_of c) ->
+    R (zlen xs) (gn fm c tail None) (se_ fs T xs tail None).
+
+  Lemma positional_step : forall k fm fs c T xs,
+    (wd c <= k)%nat -> (k + 1 + Nm <= fm)%nat -> (1 + Ns <= fs)%nat -> tdepth T <= K + 1 ->
+    Valid None c -> gfrag c = true -> to_list c = Ok xs -> er T = er (type_of c) ->
+    R (zlen xs) (gn fm c (head :: tail) None) (se_ fs T xs (head :: tail) None).
+  Proof.
+    induction k as [|k IHk]; intros fm fs c T xs Hw Hfm Hfs HK HV Hfr Hl HT;
+      (destruct fm as [|fm]; [lia|]); (destruct fs as [|fs]; [lia|]).
+    - destruct (lnode c) eqn:Hn.
+      + destruct head; try discriminate.
+        * eapply list_node_IAt; [exact IH|lia|lia|assumption..].
+        * eapply list_node_IRange; [exact IH|lia|lia|assumption..].
+      + apply leaf_positional; try assumption; [lia|]. destruct head; try discriminate; reflexivity.
+    - assert (IHp : forall p xs0, Valid None p -> gfrag p = true -> (wd p < wd c)%nat -> to_list p = Ok xs0 ->
+                      er T = er (type_of p) ->
+                      R (zlen xs0) (gn fm p (head :: tail) None) (se_ (S fs) T xs0 (head :: tail) None)).
+      { intros p xs0 HVp Hfp Hwp Hlp HTp. apply IHk; try assumption; lia. }
+      destruct c; cbn [gfrag] in Hfr; try discriminate.
+      + apply leaf_positional; try assumption; try reflexivity. destruct head; try discriminate; reflexivity.
+      + apply leaf_positional; try assumption; try reflexivity. destruct head; try discriminate; reflexivity.
+      + destruct head; try discriminate;
+          [eapply list_node_IAt|eapply list_node_IRange]; try exact IH; try assumption; try reflexivity; lia.
+      + destruct head; try discriminate;
+          [eapply list_node_IAt|eapply list_node_IRange]; try exact IH; try assumption; try reflexivity; lia.
+      + destruct head; try discriminate;
+          [eapply list_node_IAt|eapply list_node_IRange]; try exact IH; try assumption; try reflexivity; lia.
+      + eapply indexed_step; try eassumption. eauto.
+      + eapply option_step; try eassumption. reflexivity.
+      + eapply option_step; try eassumption. reflexivity.
+      + eapply option_step; try eassumption. reflexivity.
+      + eapply option_step; try eassumption. reflexivity.
+      + eapply par_step; try eassumption. eauto.
+  Qed.
+End Positional.
+
